@@ -6,7 +6,7 @@ From V.lib Require Import Base.
 From V.c13 Require Import C13Spec C13Model C13Bits C13EscProofs C13MarkProofs
   C13WriterProofs C13ReaderProofs C13RoundTrip C13PlainProofs
   C13ModelExt C13TrailProofs C13FswProofs C13FswRoundTrip C13ByteWriterProofs
-  C13WideProofs C13StickyProofs C13FailProofs C13ExactProofs C13SpillProofs C13SignedProofs C13UeLoopProofs C13ReadAnyProofs.
+  C13WideProofs C13StickyProofs C13FailProofs C13ExactProofs C13SpillProofs C13SignedProofs C13UeLoopProofs C13ReadAnyProofs C13ReadAnyPlainProofs.
 
 (* ---- emulation prevention, byte level, every byte string ---- *)
 Theorem C13_unescape_escape : forall l : list N, unescape (escape l) = l.
@@ -491,4 +491,26 @@ Example ex_eof_sticky :
   let s := snd (read (rinit [1; 2]) 24) in
   rerr s = true /\ nr_bytes_read s = 2 /\ fst (run_reader [RBits 8; RUe; RSe; RFlag; RMore] s)
   = [VN 0; VN 0; VZ 0; VB false; VMore None].
+Proof. vm_compute. repeat split. Qed.
+
+(* ---- bits.Reader: Read(n) for every width and ReadSigned in terms of the stream ---- *)
+(* (1) Reader.Read(n) returns the true n-bit value modulo 2^(64 - k), k = bits left pending; position always right;
+   (2) Reader.ReadSigned(n), 1 <= n, n + k <= 64 (every n <= 57): the next n bits as a two's-complement number *)
+Theorem C13_plain_read_widths :
+  (forall s n,
+     RInv s -> rn s < 8 -> n <= N.of_nat (length (pbits s)) ->
+     let '(v, s') := read_plain s n in
+     v = val_of (firstn (N.to_nat n) (pbits s)) mod 2 ^ (64 - rn s') /\
+     pbits s' = skipn (N.to_nat n) (pbits s) /\
+     RInv s' /\ rn s' < 8 /\ rdata s' = rdata s) /\
+  (forall s n,
+     RInv s -> rn s < 8 -> 1 <= n -> n <= N.of_nat (length (pbits s)) ->
+     n + rn (snd (read_plain s n)) <= 64 ->
+     exists s', read_signed64 s n = Some (sval_of (firstn (N.to_nat n) (pbits s)), s') /\
+                pbits s' = skipn (N.to_nat n) (pbits s) /\ RInv s' /\ rn s' < 8).
+Proof. exact (conj read_any_plain read_signed_stream). Qed.
+Print Assumptions C13_plain_read_widths.
+
+Example ex_sval : sval_of [true; false; true] = (-3)%Z /\ sval_of [false; true; true] = 3%Z
+  /\ read_signed64 (rinit [160]) 3 = Some ((-3)%Z, mkR 5 0 1 0 false [160]).
 Proof. vm_compute. repeat split. Qed.
